@@ -365,13 +365,28 @@ Fixpoint first_model (fls : list flags) (sh : bool) (evs : list (ev * dump)) : o
     when the implementation follows a model with defect k on and the same atomic steps, run on
     the model with defect k switched off (plus the send that is then still queued), meet the
     specification. *)
+(** The specification evaluated on what was OBSERVED alone, without the queue model: the
+    ghost wants follow from the producer calls, the peer's list is the harness's replay of the
+    real messages, the queue lists are the last dump.  Used when no model variant can follow
+    the implementation, so that a broken queue yields a concrete specification failure. *)
+Definition ghost_of (sh : bool) (evs : list (ev * dump)) : st :=
+  fold_left (fun s ed =>
+    match fst ed with
+    | EWants _ _ | EBcast _ | ECancel _ => run fixed_flags sh s (steps_of sh (fst ed) s)
+    | _ => s
+    end) evs init.
+Definition observed_ok (sh : bool) (univ : list Z) (evs : list (ev * dump)) (rfinal : wl) : bool :=
+  let g := ghost_of sh evs in
+  let d := match rev evs with (_, d) :: _ => d | [] => mkdump [] [] [] [] [] end in
+  spec_ok sh univ (mkst (d_pp d) (d_ps d) (d_bp d) (d_bs d) (d_cn d) 0 rfinal (g_wp g) (g_wb g)).
+
 Definition check_case (c : case) : verdict :=
   match c with
   | CSched sh univ evs rfinal =>
       match first_model [code_flags; mkflags false true; mkflags true false; fixed_flags] sh evs with
-      | None => VModelMismatch
+      | None => verdict_of false (observed_ok sh univ evs rfinal)
       | Some (fl, s, tr) =>
-          if negb (types_eqb (r_wl s) rfinal) then VModelMismatch
+          if negb (types_eqb (r_wl s) rfinal) then verdict_of false (observed_ok sh univ evs rfinal)
           else if spec_ok sh univ s then VOk
           else
             let cured := fun fl' => spec_ok sh univ (flush fl' sh (run fl' sh init tr)) in
